@@ -85,6 +85,13 @@ def gen(rng, tier, quarantine=()):
                       for f in (rng.choice(shared) for _ in range(rng.randint(0, 2)))]
             rounds.insert(rng.randint(0, len(rounds)), {"probe": {"sels": [bad], "kind": "probe", "expect_refusal": True},
                                                         "calls": calls3})
+        for rnd in rounds:
+            pr = rnd.get("probe")
+            if pr and not pr.get("expect_refusal") and rng.random() < 0.3:
+                # (not for a closure: the factory's products share one reference, which is
+                # ambiguous by design)
+                if pr["sels"][0]["levels"][0]["fn"] != "clo":
+                    pr["sels"][0]["levels"][0]["ref"] = True
         threads.append({"rounds": rounds})
     bound = 3 if tier == "quick" else 5
     r = rng.random()
